@@ -497,3 +497,54 @@ func init() {
 	}
 
 }
+
+// ---- a local target watched from both nodes: the peer's requester goes with the connection, the local one stays
+// and is told when the target goes away (C04; also C14: losing a connection removes the peer's relations only) ----
+func init() {
+	for _, kind := range []string{"pid", "name", "alias", "event"} {
+		for _, rrel := range []string{"link", "monitor"} {
+			for _, prop := range []string{"C04", "C14"} {
+				kind, rrel, prop := kind, rrel, prop
+				harn.Register(harn.Scenario{Property: prop, Name: fmt.Sprintf("watched-from-both-nodes-%s-remote-%s-cut-then-kill", kind, rrel), Run: func(c *harn.Ctx) *harn.Result {
+					return harn.Explore(c, harn.Sched{QuickBound: 1, ThoroughBound: 2, Preempt: false, Cache: true, HorizonS: 30, Body: netBody(netOpts{}, func(nw *NetWorld) {
+						nw.a.ex.Data["kind"] = kind
+						t := nw.a.spawnTarget("T", "tname", "tev")
+						o := nw.a.spawnObserver("O1")
+						var e1, e2, e3 error
+						nw.a.Do("O1", func(p *probe) error {
+							e1 = request(p, "link", kind, t)
+							e2 = request(p, "monitor", kind, t)
+							return nil
+						})
+						remoteObserver(nw.b, "RB")
+						nw.connect()
+						if nw.ex.Failed() {
+							return
+						}
+						nw.b.Do("RB", func(p *probe) error { e3 = request(p, rrel, kind, t); return nil })
+						if e1 != nil || e2 != nil || e3 != nil {
+							nw.ex.Fail("harness", "set-up requests failed: %v %v %v", e1, e2, e3)
+							return
+						}
+						nw.ex.Thread("CUT", func() { nw.links[0].ca.Close() })
+						nw.ex.ThreadLow("KILL", func() { nw.a.n.Kill(t.pid) })
+						nw.Check = func() {
+							tk := targetKey(kind, t)
+							want := map[string]bool{"exit:" + tk + ":kill": true, "down:" + tk + ":kill": true}
+							for _, x := range o.notifs {
+								if !want[x] {
+									nw.ex.Fail("foreign-notification", "local observer received %q (expected one exit and one down for %s with reason kill)", x, tk)
+								}
+								delete(want, x)
+							}
+							if len(want) > 0 {
+								nw.ex.Fail("notification-missing", "a %s watched by a local process (link and monitor) and by a process on another node (%s): the connection was lost, then the target was killed; the local process got %v, still missing %v", kind, rrel, o.notifs, want)
+							}
+							nw.Out("notifs=%v", o.notifs)
+						}
+					})})
+				}})
+			}
+		}
+	}
+}
